@@ -548,6 +548,22 @@ theorem fax_dims_total (columns rows : Nat) : faxDims true columns rows ≠ .pan
   · simp
   · split <;> simp
 
+/-- … and what a stream with a stated number of rows may decode to is bounded by its own length:
+    at most `8 · len` rows of at most 65535 bytes (four bytes cannot claim 4 GiB). -/
+theorem fax_output_bounded (columns rows dataLen c r : Nat) (h : faxDimsData columns rows dataLen = .ok (c, r)) :
+    c ≤ 65535 ∧ r ≤ 8 * dataLen := by
+  unfold faxDimsData faxDims at h
+  rw [if_pos rfl] at h
+  by_cases h1 : columns = 0 ∨ columns > 65535
+  · simp [h1] at h
+  · by_cases h2 : rows > 65535
+    · simp [h1, h2] at h
+    · simp only [h1, h2, if_false] at h
+      by_cases h3 : rows > 8 * dataLen
+      · simp [h3] at h
+      · simp only [h3, if_false, Out.ok.injEq, Prod.mk.injEq] at h
+        omega
+
 theorem faxOld_panics : faxDims false 0 5 = .panic ∧ faxDims false 4294967295 4294967295 = .panic := by decide
 
 -- ===================================================================================================
